@@ -295,6 +295,24 @@ class Choices(base.HyperPrimitive):
             )
         )
       choices.append(geno.DNA(choice_id, [child_dna]))
+    # The matched candidates must satisfy the constraints `decode` enforces.
+    choice_ids = [c.value for c in choices]
+    if self.choices_distinct and len(set(choice_ids)) != len(choice_ids):
+      raise ValueError(
+          utils.message_on_path(
+              'Cannot encode value: choices should be distinct. '
+              f'Encountered: {choice_ids}.',
+              self.sym_path,
+          )
+      )
+    if self.choices_sorted and sorted(choice_ids) != choice_ids:
+      raise ValueError(
+          utils.message_on_path(
+              'Cannot encode value: choices should be sorted. '
+              f'Encountered: {choice_ids}.',
+              self.sym_path,
+          )
+      )
     return geno.DNA(None, choices)
 
 
